@@ -23,6 +23,25 @@ type histCase struct {
 	Roots   []string `json:"roots"`   // directories handed to the scanner, in this order (may overlap, may not exist)
 	Persist string   `json:"persist"` // how index k-1 reaches refresh k: none (in memory), stream, file
 	Ops     []op     `json:"ops"`     // one refresh is checked after each
+	// Crashes[k] describes the crash while the cache was written before refresh k (refresh 0 is the one
+	// before the first mutation): the cache file holds only a prefix. Layer "" = no crash.
+	Crashes []crash `json:"crashes,omitempty"`
+}
+
+// crash: the cache file read by a refresh is cut. Layer "plain": the logical stream is cut after
+// Cut bytes (and the file is a valid gzip stream of that prefix); "gzip": the file is cut after Cut
+// bytes.
+type crash struct {
+	Layer string `json:"layer,omitempty"`
+	Cut   int    `json:"cut,omitempty"`
+}
+
+// crashSel is how a crash is chosen before the bytes exist: mode none / boundary (a field, entry or
+// footprint boundary of the logical stream) / plain / gzip (any byte) / resolved (replay).
+type crashSel struct {
+	mode string
+	k    int
+	at   crash
 }
 
 type hist struct {
@@ -32,6 +51,7 @@ type hist struct {
 	prev fontscan.VerifIndex
 
 	steps, mixed, scanErrors, reused, rescanned int
+	crashAccepted, crashRejected, crashInside   int
 	tags                                        map[string]bool
 }
 
@@ -49,7 +69,9 @@ func newHist(t ev.TB, c *histCase) (*hist, error) {
 	return h, nil
 }
 
-func (h *hist) fail(format string, args ...interface{}) { ev.Fail(h.t, "history", h.c, format, args...) }
+func (h *hist) fail(format string, args ...interface{}) {
+	ev.Fail(h.t, "history", h.c, format, args...)
+}
 
 // persisted sends the previous index through the persistence layer, as a real refresh does.
 func (h *hist) persisted() fontscan.VerifIndex {
@@ -87,14 +109,107 @@ func (h *hist) persisted() fontscan.VerifIndex {
 	return out
 }
 
+// crashed returns the index a refresh reads when the writer of the cache crashed: the cache file
+// holds a prefix. An unreadable cache means "no previous index", as in refreshSystemFontsIndex.
+func (h *hist) crashed(sel crashSel) (fontscan.VerifIndex, crash) {
+	var buf bytes.Buffer
+	if err := fontscan.VerifSerializeIndex(h.prev, &buf); err != nil {
+		h.fail("serialising the index failed: %v", err)
+	}
+	gz := buf.Bytes()
+	plain, err := gunzip(gz)
+	if err != nil {
+		h.fail("the serialised index is not a gzip stream: %v", err)
+	}
+	flds, entries := layout(plain)
+	cr := sel.at
+	switch sel.mode {
+	case "boundary":
+		set := map[int]bool{0: true, len(plain): true}
+		for _, f := range flds {
+			set[f.Off], set[f.Off+f.Width] = true, true
+		}
+		for _, e := range entries {
+			set[e.Start], set[e.ModTime], set[e.End] = true, true, true
+			for _, c := range e.Cuts {
+				set[c] = true
+			}
+		}
+		var cands []int
+		for c := range set {
+			if c <= len(plain) {
+				cands = append(cands, c)
+			}
+		}
+		sort.Ints(cands)
+		cr = crash{Layer: "plain", Cut: cands[sel.k%len(cands)]}
+	case "footprint_boundary":
+		var cands []int
+		for _, e := range entries {
+			cands = append(cands, e.Cuts...)
+		}
+		if len(cands) == 0 {
+			cands = []int{len(plain)}
+		}
+		cr = crash{Layer: "plain", Cut: cands[sel.k%len(cands)]}
+	case "plain":
+		cr = crash{Layer: "plain", Cut: sel.k % (len(plain) + 1)}
+	case "gzip":
+		cr = crash{Layer: "gzip", Cut: sel.k % (len(gz) + 1)}
+	}
+	var data []byte
+	if cr.Layer == "gzip" {
+		if cr.Cut > len(gz) {
+			cr.Cut = len(gz)
+		}
+		data = gz[:cr.Cut]
+	} else {
+		cr.Layer = "plain"
+		if cr.Cut > len(plain) {
+			cr.Cut = len(plain)
+		}
+		data = gzipOf(plain[:cr.Cut])
+	}
+	os.MkdirAll(filepath.Dir(histCache), 0o755)
+	if err := os.WriteFile(histCache, data, 0o644); err != nil {
+		h.t.Fatalf("writing the cut cache: %v", err)
+	}
+	var out fontscan.VerifIndex
+	if p, st := call(func() { out, err = fontscan.VerifDeserializeIndexFile(histCache) }); p != nil {
+		h.c.Crashes = append(h.c.Crashes, cr)
+		h.fail("reading the cut cache file panicked: %v\n%s", p, st)
+	}
+	if err != nil {
+		h.crashRejected++
+		return nil, cr
+	}
+	h.crashAccepted++
+	pos := cr.Cut
+	if cr.Layer == "gzip" {
+		pos, _ = gunzipPartial(data)
+	}
+	if insideEntry(entries, pos) {
+		h.crashInside++
+	}
+	return out, cr
+}
+
 // refresh is the oracle of one step: scan(prev = index k-1) ≡ scan(prev = nil).
-func (h *hist) refresh() {
+func (h *hist) refresh(sel crashSel) {
 	h.steps++
 	scratch := scan(nil, h.c.Roots)
 	if scratch.pan != nil {
 		h.fail("from-scratch scan panicked: %v\n%s", scratch.pan, scratch.stack)
 	}
 	prev := h.persisted()
+	var cr crash
+	if sel.mode != "" && sel.mode != "none" {
+		prev, cr = h.crashed(sel)
+	}
+	for len(h.c.Crashes) < h.steps-1 {
+		h.c.Crashes = append(h.c.Crashes, crash{})
+	}
+	h.c.Crashes = append(h.c.Crashes, cr)
 	incr := scan(prev, h.c.Roots)
 	if incr.pan != nil {
 		h.fail("incremental scan panicked: %v\n%s", incr.pan, incr.stack)
@@ -146,17 +261,23 @@ func (h *hist) do(o op) {
 }
 
 func replayHistory(t *testing.T, c histCase) {
-	ops := c.Ops
-	c.Ops = nil
+	ops, crashes := c.Ops, c.Crashes
+	c.Ops, c.Crashes = nil, nil
 	h, err := newHist(t, &c)
 	if err != nil {
 		t.Fatal(err)
 	}
 	defer h.w.close()
-	h.refresh()
-	for _, o := range ops {
+	sel := func(k int) crashSel {
+		if k < len(crashes) && crashes[k].Layer != "" {
+			return crashSel{mode: "resolved", at: crashes[k]}
+		}
+		return crashSel{}
+	}
+	h.refresh(sel(0))
+	for i, o := range ops {
 		h.do(o)
-		h.refresh()
+		h.refresh(sel(i + 1))
 	}
 	t.Logf("history replay: %d refreshes, %d mixed, %d scan errors", h.steps, h.mixed, h.scanErrors)
 }
@@ -219,7 +340,24 @@ func (h *hist) actions() map[string]func(*rapid.T) {
 		}
 	}
 	return map[string]func(*rapid.T){
-		"": func(*rapid.T) { h.refresh() },
+		"": func(t *rapid.T) {
+			sel := crashSel{}
+			switch k := rapid.IntRange(0, 19).Draw(t, "crash"); {
+			case k <= 12:
+			case k <= 14:
+				sel.mode = "footprint_boundary"
+			case k <= 16:
+				sel.mode = "boundary"
+			case k == 17:
+				sel.mode = "plain"
+			default:
+				sel.mode = "gzip"
+			}
+			if sel.mode != "" {
+				sel.k = rapid.IntRange(0, 1<<20).Draw(t, "crash_at")
+			}
+			h.refresh(sel)
+		},
 		"add_a": add, "add_b": add,
 		"junk": func(t *rapid.T) {
 			h.do(op{Op: "junk", Path: newFile(t), Junk: rapid.SampledFrom([]string{"empty", "text", "noise", "xml"}).Draw(t, "junk")})
@@ -312,6 +450,9 @@ func TestPropHistory(t *testing.T) {
 		if len(c.Roots) > 1 {
 			labels = append(labels, "several_roots")
 		}
+		if h.crashAccepted+h.crashRejected > 0 {
+			labels = append(labels, "history_with_crash_while_writing_the_cache")
+		}
 		kinds := map[string]bool{}
 		for _, o := range c.Ops {
 			kinds[o.Op] = true
@@ -327,6 +468,9 @@ func TestPropHistory(t *testing.T) {
 		ev.LabelN("refreshes", int64(h.steps))
 		ev.LabelN("refreshes_mixed_reuse_and_rescan", int64(h.mixed))
 		ev.LabelN("refreshes_failed_traversal", int64(h.scanErrors))
+		ev.LabelN("crash_prefixes_accepted", int64(h.crashAccepted))
+		ev.LabelN("crash_prefixes_rejected", int64(h.crashRejected))
+		ev.LabelN("crash_prefixes_accepted_ending_inside_an_entry", int64(h.crashInside))
 		ev.LabelN("entries_reused", int64(h.reused))
 		ev.LabelN("entries_rescanned", int64(h.rescanned))
 		if h.mixed > 0 && ev.WantSample() {
@@ -344,10 +488,11 @@ func TestPropHistory(t *testing.T) {
 
 type refreshCase struct {
 	Tree     []op   `json:"tree"`     // under xdg/fonts
-	Cache    string `json:"cache"`    // missing dangling_link empty garbage valid prefix xor plain_prefix plain_xor
+	Cache    string `json:"cache"`    // missing dangling_link empty garbage valid prefix xor plain_prefix plain_xor plain_cut
 	Permille int    `json:"permille"` // position of the fault as a fraction of the length (the bytes contain absolute temp paths)
 	Mask     int    `json:"mask,omitempty"`
-	Mutate   []op   `json:"mutate"` // applied after the cache was written, before the refresh
+	Boundary int    `json:"boundary,omitempty"` // plain_cut: which footprint boundary inside an entry (temp tree entries first)
+	Mutate   []op   `json:"mutate"`             // applied after the cache was written, before the refresh
 }
 
 func runRefreshCase(t ev.TB, c refreshCase) (outcome string) {
@@ -417,15 +562,33 @@ func runRefreshCase(t ev.TB, c refreshCase) (outcome string) {
 	case "xor":
 		cache = append([]byte(nil), valid...)
 		cache[at(len(cache)-1)] ^= byte(c.Mask)
-	case "plain_prefix", "plain_xor":
+	case "plain_prefix", "plain_xor", "plain_cut":
 		plain, err := gunzip(valid)
 		if err != nil {
 			t.Fatalf("gunzip: %v", err)
 		}
-		if c.Cache == "plain_prefix" {
+		switch c.Cache {
+		case "plain_prefix":
 			plain = plain[:at(len(plain))]
-		} else {
+		case "plain_xor":
 			plain[at(len(plain)-1)] ^= byte(c.Mask)
+		default:
+			// the logical stream stops at a footprint boundary inside an entry: what is left of that
+			// entry still looks like an entry (with no face, or with the first faces of a collection)
+			_, entries := layout(plain)
+			var mineCuts, hostCuts []int
+			for _, e := range entries {
+				if strings.HasPrefix(string(plain[e.Path:e.ModTime]), w.dir) {
+					mineCuts = append(mineCuts, e.Cuts...)
+				} else {
+					hostCuts = append(hostCuts, e.Cuts...)
+				}
+			}
+			cuts := append(mineCuts, hostCuts...)
+			if len(cuts) == 0 {
+				t.Fatalf("no footprint boundary in the index")
+			}
+			plain = plain[:cuts[c.Boundary%len(cuts)]]
 		}
 		cache = gzipOf(plain)
 	default:
@@ -471,11 +634,24 @@ func runRefreshCase(t ev.TB, c refreshCase) (outcome string) {
 		outcome = "cache_accepted"
 	}
 	matched := keysOf(prev)
+	// strict: every kind of cache (valid, missing, truncated anywhere, damaged file bytes) except a
+	// payload edit re-compressed into a valid file, which no reader can tell from an honest cache
+	strict := c.Cache != "plain_xor"
+	excluded := false
 	for i := range scratch.index {
 		sp, sm, _ := fontscan.VerifFileFootprintsParts(scratch.index[i])
 		d := diffEntry(scratch.index[i], got[i])
 		if d == "" {
 			continue
+		}
+		if strict && !excluded {
+			_, complete := gunzipPartial(cache)
+			if c.Cache == "xor" && !complete && ev.Known(findingChecksum) {
+				ev.Excluded(findingChecksum) // see faults_test.go
+				excluded = true
+			} else {
+				fail("cache %s was read without error, but the refreshed index differs from a from-scratch scan: %s", c.Cache, d)
+			}
 		}
 		if !matched[pathTime{sp, sm}] {
 			fail("refreshed index differs from a from-scratch scan for a file that matches no cache entry: %s", d)
@@ -532,6 +708,9 @@ func refreshCases() []refreshCase {
 			}
 			out = append(out, refreshCase{Tree: tree, Cache: "xor", Permille: pm, Mask: 0xFF, Mutate: m})
 			out = append(out, refreshCase{Tree: tree, Cache: "plain_xor", Permille: pm, Mask: 0x80, Mutate: m})
+		}
+		for b := 0; b < 8; b++ {
+			out = append(out, refreshCase{Tree: tree, Cache: "plain_cut", Boundary: b, Mutate: m})
 		}
 	}
 	return out
